@@ -102,6 +102,20 @@ def run(tier):
                 q = f"select swap_partitions_between_tables('{S}.tb_sw{i}', 1, 2, '{S}.tb_tg{i}')"
                 for mech in ("scoped", "env_after_import", "env_before_import"):
                     jobs.append({"mech": mech, "S": S, "dialect": d, "unq": unq, "q": q, "has_unq": True, "tags": ["stmt.swap_partitions"]})
+    # dialect-specific spellings of table names: tsql temporary tables (#t, ##t), bracket-quoted names, bigquery back-quoted names
+    for i in range(4):
+        for S in ("zs_fresh", "sa"):
+            forms = [
+                ("tsql", f"select c1, c2 into #st{i} from tb_a{i}; insert into tb_b{i} select c1 from #st{i}",
+                 f"select c1, c2 into {S}.#st{i} from {S}.tb_a{i}; insert into {S}.tb_b{i} select c1 from {S}.#st{i}"),
+                ("tsql", f"insert into ##gt{i} select c1 from [tb_a{i}]; select * from ##gt{i}",
+                 f"insert into {S}.##gt{i} select c1 from {S}.[tb_a{i}]; select * from {S}.##gt{i}"),
+                ("bigquery", f"insert into `tb_b{i}` select c1 from `tb_a{i}`", f"insert into `{S}`.`tb_b{i}` select c1 from `{S}`.`tb_a{i}`"),
+                ("mysql", f"insert into `tb_b{i}` select c1 from `tb_a{i}` x", f"insert into `{S}`.`tb_b{i}` select c1 from `{S}`.`tb_a{i}` x"),
+            ]
+            for d, unq, q in forms:
+                for mech in ("scoped", "env_after_import", "env_before_import"):
+                    jobs.append({"mech": mech, "S": S, "dialect": d, "unq": unq, "q": q, "has_unq": True, "tags": ["stmt.dialect_specific_names"]})
     for k in ("pairs_compared", "env_before_import_compared", "scoped_compared", "env_after_import_compared", "no_default_uniform_checked", "env_after_a_closed_scope_compared"):
         run_.need(k)
     ref_cases = {}
